@@ -1,11 +1,11 @@
 (* C20 — property theorems (statements, `exact` proofs, non-vacuity examples, Print Assumptions only).
    Models: Model/Config.v (SPDC::try_as_optimum in the code's order, incl. the two quirks: idler computed with the OLD
-   poling, idler waist position computed from the OLD idler) and Model/Spectrum.v (JointSpectrum::new, the normalised
+   poling, idler waist position computed from the OLD idler) and Model/NormSpectrum.v (JointSpectrum::new, the normalised
    accessors, SPDCIter::jsi_values(_normalized)); every numerical kernel is an oracle and every theorem is quantified over
    all oracles (optimiser kernels under the stated collinear contracts; raw spectra and normalisation factors arbitrary). *)
 From Coq Require Import Reals List.
 From Coquelicot Require Import Complex.
-From SpdVerif Require Import Base.NumOps Model.NumInst Spec.ConfigSpec Gen.ConfigTables Gen.ConfigSites Model.ConfigTypes Model.Config Model.Spectrum
+From SpdVerif Require Import Base.CfgNumOps Model.NumInst Spec.ConfigSpec Gen.ConfigTables Gen.ConfigSites Model.ConfigTypes Model.Config Model.NormSpectrum
   Proofs.C20_idempotent Proofs.C20_spectrum.
 Import ListNotations.
 Local Open Scope R_scope.
